@@ -1288,3 +1288,9 @@ func (p *PathConds) expandCompare(bo *ssa.BinOp, want bool) ([]conj, bool) {
 	}
 	return out, true
 }
+
+// isRangeTest: the atom is the continuation test of a walk over x (`i < len(x)`), not the
+// emptiness test `0 < len(x)` that `len(x) == 0` and `len(x) > 0` are normalised to.
+func isRangeTest(a string) bool {
+	return strings.Contains(a, " < builtin:len(") && !strings.HasPrefix(a, "(0 < builtin:len(")
+}
